@@ -215,6 +215,54 @@ def run_e2e(ctx):
     ctx.traces_vs_impl += len(unit_lines)
 
 
+def run_redirected_requests(ctx):
+    """the request sent to a redirect target reflects THAT URL (host, port, resource, scheme of the default Origin) and
+    the same options; the key is fresh again."""
+    from websocket._url import parse_url
+    rnd = ctx.rng("redir")
+    chains = [["ws://a.example/one", "wss://b.example:8443/two?x=1"], ["wss://a.example/", "ws://b.example/b"],
+              ["ws://a.example:81/p;q", "ws://[::1]:9000/r"], ["ws://a.example/", "wss://a.example/", "ws://c.example/c?d"]]
+    optsets = [{}, {"origin": "https://o.example"}, {"suppress_origin": True}, {"subprotocols": ["Chat", "b"]},
+               {"header": ["X-A: 1"], "cookie": "c=1"}, {"header": {"X-B": "2"}}]
+    spec_lines, pend = [], []
+    for chain in chains:
+        for opts in optsets:
+            rands = [bytes(rnd.randrange(256) for _ in range(16)) for _ in chain]
+            dials = []
+            for i, url in enumerate(chain):
+                if i + 1 < len(chain):
+                    dials.append(DialSpec([("chunk", response("302", [("Location", chain[i + 1])], reason="Found"))], rand=rands[i]))
+                else:
+                    sub = (opts.get("subprotocols") or [None])[0]
+                    dials.append(DialSpec([("chunk", response("101", good_headers(key_of(rands[i]), sub=sub)))], rand=rands[i]))
+            given = json.loads(json.dumps(opts))
+            case = Case(chain[0], dials, options=opts, tag="c10-redirect")
+            r = run_real(case)
+            inp = {"op": "redirect-chain", "chain": chain, "options": given}
+            ctx.case(key=("redir", str(chain), json.dumps(given, sort_keys=True)), nontrivial=True, cls=f"redirect:hops={len(chain)}")
+            if r.res != "ok":
+                ctx.violate("request-reflects-options", "redirect-chain-not-followed", inp, "connected", r.obs[:200], size=len(str(inp)))
+                continue
+            for i, url in enumerate(chain):
+                ws_ = [w for w in r.net.writes if w[0] == i and w[1] == "I"]
+                if len(ws_) != 1:
+                    ctx.violate("one-write", "request-not-one-write", inp, f"one request on connection {i}", str(len(ws_)), size=len(str(inp)))
+                    break
+                host, port, resource, secure = parse_url(url)
+                jar = r.net.jar_gets[i][2] if len(r.net.jar_gets) > i else ""
+                spec_lines.append("s-parse-request " + common.hexarg(ws_[0][2]))
+                spec_lines.append(" ".join(["s-expected-request", hx(host), str(port), hx(resource), str(int(secure))]
+                                           + opts_args(given) + [common.hexarg(rands[i]), hx(jar)]))
+                pend.append((inp, i, url, ws_[0][2]))
+    out = common.run_driver_parallel(spec_lines)
+    for j, (inp, i, url, data) in enumerate(pend):
+        parsed, expected = out[2 * j], out[2 * j + 1]
+        if parsed != expected:
+            ctx.violate("request-reflects-options", "redirected-request-reflects-the-previous-url" if i else "header-mismatch",
+                        dict(inp, hop=i, url=url), expected, parsed if parsed != "none" else data.decode("latin-1")[:300], size=len(str(inp)))
+    ctx.traces_vs_impl += len(pend)
+
+
 def run_unit_quirks(ctx):
     """quirk inputs for the model only (outside the Spec's quantifier): manual key / version, list
     containing the literal header name, CR/LF inside values, non-ASCII"""
@@ -332,6 +380,7 @@ def run(ctx):
     run_unit_quirks(ctx)
     run_e2e(ctx)
     run_freshness(ctx)
+    run_redirected_requests(ctx)
 
 
 def search(ctx):
